@@ -778,6 +778,18 @@ pub fn c11(ctx: &Ctx) -> PropResult {
             cases.push(Case::new(Kind::Parse, crlf).tag("front-end-error-labels"));
         }
     }
+    // FORMAT / DISPLAYF with too few values: wherever the format text comes from, the label stays inside the call
+    for (setup, call) in [
+        ("", "FORMAT(\"a {} b {}\", [1])"), ("fmt <- \"a {} b {}\"\n", "FORMAT(fmt, [1])"), ("", "FORMAT(  \"{}{}\"  , [1])"), ("", "FORMAT(\"é\\n{} 語 {}\", [1])"),
+        ("fmt <- \"{} {} {} {} {} {} {} {} {} {} {} {} {} {} {} {} {} {} {} {}\"\n", "DISPLAYF(fmt, [1])"), ("PROCEDURE mk() {\nRETURN \"{}{}\"\n}\n", "DISPLAYF(mk(), [])"), ("", "DISPLAYF(\"{}\" + \"{}\", [1])"),
+    ] {
+        for ni in [0usize, 1, 6] {
+            for tail in ["\n", "", "\nDISPLAY(\"after\")\n"] {
+                let src = format!("{}IMPORT MOD \"IO\"\n{setup}DISPLAY(\"éarlier output\")\nx <- {call}{tail}", noise[ni]);
+                cases.push(run_case(src, "format-error"));
+            }
+        }
+    }
     // native argument errors in calls laid out over several lines: the label is the offending argument, wherever it stands
     for (call, label) in [
         ("INSERT(lst,\n      99, 0)", "99"),
@@ -808,8 +820,13 @@ pub fn c11(ctx: &Ctx) -> PropResult {
     let mod_dir = scratch_dir("c11-modules");
     let _ = std::fs::create_dir_all(mod_dir.join("lib"));
     for (k, (expr, label)) in failing.iter().enumerate() {
-        for body_ctx in ["RETURN @\n", "x <- 1 + (@)\nRETURN x\n", "IF (TRUE) {\nDISPLAY([0, @])\n}\n"] {
-            let module = format!("// módule 語\nPROCEDURE one(p) {{\n RETURN p\n}}\nEXPORT PROCEDURE bad() {{\nlst <- [1, 2, 3]\nstr <- \"héllo\"\nnum <- 5\n{}}}\n", body_ctx.replace('@', expr));
+        for body_ctx in ["RETURN @\n", "x <- 1 + (@)\nRETURN x\n", "IF (TRUE) {\nDISPLAY([0, @])\n}\n", "TOPLEVEL"] {
+            let module = if body_ctx == "TOPLEVEL" {
+                // the error is raised while the module's top level runs (directly and through a procedure it calls)
+                format!("// módule 語\nPROCEDURE one(p) {{\n RETURN p\n}}\nlst <- [1, 2, 3]\nstr <- \"héllo\"\nnum <- 5\nEXPORT PROCEDURE bad() {{\nRETURN 0\n}}\nDISPLAY(\"module start\")\ny <- {expr}\n")
+            } else {
+                format!("// módule 語\nPROCEDURE one(p) {{\n RETURN p\n}}\nEXPORT PROCEDURE bad() {{\nlst <- [1, 2, 3]\nstr <- \"héllo\"\nnum <- 5\n{}}}\n", body_ctx.replace('@', expr))
+            };
             let name = format!("lib/m{}_{}.ap", k, fnv(body_ctx) % 1000);
             let full = mod_dir.join(&name);
             std::fs::write(&full, &module).unwrap();
